@@ -228,7 +228,8 @@ Section Rename.
       destruct (N.eqb op 3).
       + rewrite (map_st_ren ren _ _ (then_cast EV EV' cast_ranges IH0)).
         destruct (map_st _ s es) as [[s1 rs]| | |]; reflexivity.
-      + rewrite (map_st_ren ren _ _ (then_cast EV EV' cast_schema IH0)).
+      + destruct (vop_of op) as [vo|]; [|reflexivity].
+        rewrite (map_st_ren ren _ _ (then_cast EV EV' cast_schema IH0)).
         destruct (map_st _ s es) as [[s1 rs]| | |]; reflexivity.
     - (* ECont *)
       rewrite (opt_st_ren ren _ _ (then_cast EV EV' cast_schema IH0)).
@@ -568,7 +569,8 @@ Section Lexical.
       destruct (N.eqb op 3).
       + apply sim_bind; [apply (map_st_sim o fr (closed xs)); [intros s0 a0 Ha0 Hs0; apply (Hcast _ cast_ranges); assumption|exact Hc|reflexivity]|].
         intros t v Ht. apply sim_ok, Ht.
-      + apply sim_bind; [apply (map_st_sim o fr (closed xs)); [intros s0 a0 Ha0 Hs0; apply (Hcast _ cast_schema); assumption|exact Hc|reflexivity]|].
+      + destruct (vop_of op) as [vo|]; [|right; reflexivity].
+        apply sim_bind; [apply (map_st_sim o fr (closed xs)); [intros s0 a0 Ha0 Hs0; apply (Hcast _ cast_schema); assumption|exact Hc|reflexivity]|].
         intros t v Ht. apply sim_ok, Ht.
     - (* ECont *)
       apply andb_prop in Hc as [Hcb Hcm].
